@@ -278,3 +278,19 @@ case(C + "version_string", params={"major": INT, "minor": INT}, returns=STR,
      ensures={"prefix": "result.startswith('%d.' % major)", "fn": "result == '%d.%03d' % (major, minor)"},
      canaries={"plain": "result == '%d.%d' % (major, minor)", "len5": "len(result) == 5"},
      gen=lambda rng: {"major": rng.randint(0, 12), "minor": rng.choice([0, 5, 42, 123, 1000])})
+
+case(C + "head2", params={"t": Tuple(INT, INT, INT)}, returns=INT, ensures={"v": "result == t[0] + t[1]"}, canaries={"w": "result == t[0] + t[2]"},
+     gen=lambda rng: {"t": [rng.randint(0, 5) for _ in range(3)]}, build=lambda d: {"t": tuple(d["t"])})
+
+case(C + "max_or_zero", params={"xs": List(INT)}, returns=INT,
+     ensures={"empty": "implies(len(xs) == 0, result == 0)", "ub": "all(result >= x + 1 for x in xs)", "wit": "implies(len(xs) > 0, any(result == x + 1 for x in xs))"},
+     canaries={"zero": "result == 0", "plain": "implies(len(xs) > 0, any(result == x for x in xs))"},
+     gen=lambda rng: {"xs": ints(rng)})
+
+case(C + "full_name", params={"a": STR, "b": INT}, returns=STR,
+     ensures={"v": "result == a + '-' + str(b)", "pre": "result.startswith(a)"}, canaries={"space": "result == a + ' ' + str(b)"},
+     gen=lambda rng: {"a": rng.choice(["x", "yy", ""]), "b": rng.randint(0, 30)})
+case(C + "padded", params={"n": INT}, returns=STR, requires=["n >= 0"],
+     # zfill is an uninterpreted function of the receiver: only functionality is known
+     ensures={"fn": "result == str(n).zfill(3)"}, canaries={"plain": "result == str(n)", "len3": "len(result) == 3"},
+     gen=lambda rng: {"n": rng.choice([0, 7, 42, 123, 4567])})
